@@ -45,9 +45,69 @@ type outcome struct {
 	data     map[string]interface{} // nil: Data == nil
 	tag      string                 // kErr
 	deadline bool                   // kCancel: cancelled by the merge deadline instead of the parent
+	// kErr: the error value. 0: a plain error; 1..4: an error implementing Errors() []error with
+	// errKind-1 inner errors; 5: lura's own merge error (obtained from a nested merge)
+	errKind int
+	// kErr: the backend hands a response over together with its error (complete/data above)
+	withResp bool
 }
 
 type tagErr struct{ tag string }
+
+// an error value that is itself a collection of errors (what a nested merge pipeline or any
+// multi-error library returns): still ONE failed backend, ONE entry
+type multiErr struct {
+	tag   string
+	inner []error
+}
+
+func (m multiErr) Error() string   { return "multi error " + m.tag }
+func (m multiErr) Errors() []error { return m.inner }
+
+// lura's own mergeError, returned by a merge of one payload and two failing backends
+var luraMergeErr error
+
+const luraMergeTag = "luramerge"
+
+func initLuraMergeErr() {
+	next := []proxy.Proxy{
+		func(context.Context, *proxy.Request) (*proxy.Response, error) {
+			return &proxy.Response{Data: map[string]interface{}{"n": 1}, IsComplete: true}, nil
+		},
+		func(context.Context, *proxy.Request) (*proxy.Response, error) { return nil, tagErr{"in1"} },
+		func(context.Context, *proxy.Request) (*proxy.Response, error) { return nil, tagErr{"in2"} },
+	}
+	_, err := proxy.NewMergeDataMiddleware(logging.NoOp, endpoint(3, time.Hour))(next...)(context.Background(), newRequest())
+	if _, ok := err.(merr); !ok {
+		// the nested merge no longer returns a multi-error: fall back to an equivalent value
+		err = multiErr{tag: luraMergeTag, inner: []error{tagErr{"in1"}, tagErr{"in2"}}}
+	}
+	luraMergeErr = err
+}
+
+func (o outcome) err() error {
+	switch {
+	case o.errKind == 0:
+		return tagErr{o.tag}
+	case o.errKind == 5:
+		return luraMergeErr
+	}
+	m := multiErr{tag: o.tag, inner: []error{}}
+	for j := 0; j < o.errKind-1; j++ {
+		m.inner = append(m.inner, tagErr{fmt.Sprintf("%s/in%d", o.tag, j)})
+	}
+	return m
+}
+
+// constructors of failing outcomes
+func errMulti(k int, id string) outcome {
+	return outcome{kind: kErr, errKind: k + 1, tag: fmt.Sprintf("multi%d:%s", k, id)}
+}
+func errLura() outcome { return outcome{kind: kErr, errKind: 5, tag: luraMergeTag} }
+func (o outcome) with(complete bool, d map[string]interface{}) outcome {
+	o.withResp, o.complete, o.data = true, complete, d
+	return o
+}
 
 func (t tagErr) Error() string { return "backend error " + t.tag }
 
@@ -81,6 +141,9 @@ func (o outcome) coq() string {
 	case kPayload:
 		return emit.App("OPayload", emit.Bool(o.complete), emit.OptObj(o.data))
 	case kErr:
+		if o.withResp {
+			return emit.App("OErrWith", emit.App("EBackend", emit.Str(o.tag)), emit.Bool(o.complete), emit.OptObj(o.data))
+		}
 		return emit.App("OErr", emit.App("EBackend", emit.Str(o.tag)))
 	case kEmpty:
 		return "OEmpty"
@@ -97,7 +160,16 @@ func (o outcome) js() interface{} {
 		}
 		return map[string]interface{}{"payload": d, "complete": o.complete}
 	case kErr:
-		return map[string]interface{}{"error": o.tag}
+		m := map[string]interface{}{"error": o.tag, "error_value": []string{"plain", "Errors() with 0 inner", "Errors() with 1 inner",
+			"Errors() with 2 inner", "Errors() with 3 inner", "lura mergeError of a nested merge (2 inner)"}[o.errKind]}
+		if o.withResp {
+			var d interface{}
+			if o.data != nil {
+				d = o.data
+			}
+			m["returned_together_with_response"] = map[string]interface{}{"payload": d, "complete": o.complete}
+		}
+		return m
 	case kEmpty:
 		return "empty(nil,nil)"
 	}
@@ -115,6 +187,12 @@ type merr interface{ Errors() []error }
 
 func ekind(e error) (string, string) {
 	var te tagErr
+	if m, ok := e.(multiErr); ok { // one entry that is itself a collection
+		return emit.App("EBackend", emit.Str(m.tag)), "backend:" + m.tag
+	}
+	if e != nil && fmt.Sprintf("%T", e) == "proxy.mergeError" {
+		return emit.App("EBackend", emit.Str(luraMergeTag)), "backend:" + luraMergeTag
+	}
 	switch {
 	case e == nil:
 		return emit.App("EOther", emit.Str("<nil entry>")), "<nil entry>"
@@ -260,7 +338,10 @@ func stub(i int) proxy.Proxy {
 		case kPayload:
 			return &proxy.Response{Data: copyMap(o.data), IsComplete: o.complete}, nil
 		case kErr:
-			return nil, tagErr{o.tag}
+			if o.withResp {
+				return &proxy.Response{Data: copyMap(o.data), IsComplete: o.complete}, o.err()
+			}
+			return nil, o.err()
 		}
 		return nil, nil
 	}
@@ -467,6 +548,10 @@ func (g *gen) record(stream string, via int, outs []outcome, order []int, res me
 			g.w.Count("outcome:payload-complete")
 		case o.kind == kPayload:
 			g.w.Count("outcome:payload-incomplete")
+		case o.kind == kErr && o.withResp:
+			g.w.Count("outcome:error-with-response")
+		case o.kind == kErr && o.errKind > 0:
+			g.w.Count("outcome:error-multi")
 		default:
 			g.w.Count("outcome:" + kindNames[o.kind])
 		}
@@ -774,12 +859,17 @@ func perms(n int) [][]int {
 // the outcome kinds of the small-scope enumeration, for backend i.  Field "a" is shared
 // by every non-empty payload (value tagged by the backend, so the winner is visible),
 // "b" by the incomplete ones, "k<i>" is private.
-const smallKinds = 8
+const smallKinds = 12
 
-// 2 and 3 backends: all eight kinds; 4 backends: the six outcomes the property names
-func smallKindsFor(n int) []int {
-	if n <= 3 {
-		return []int{0, 1, 2, 3, 4, 5, 6, 7}
+// 2 backends: all twelve kinds; 3 backends: eight of them in the quick tier (the six the
+// property names + error with a response attached + empty multi-error), all in thorough;
+// 4 backends: the six outcomes the property names
+func smallKindsFor(n int, thorough bool) []int {
+	switch {
+	case n == 2 || (n == 3 && thorough):
+		return []int{0, 1, 2, 3, 4, 5, 6, 7, 8, 9, 10, 11}
+	case n == 3:
+		return []int{0, 1, 2, 5, 6, 7, 8, 10}
 	}
 	return []int{0, 1, 2, 5, 6, 7}
 }
@@ -800,6 +890,14 @@ func smallOutcome(kind, i int) outcome {
 		return outcome{kind: kErr, tag: fmt.Sprintf("e%d", i)}
 	case 6:
 		return outcome{kind: kEmpty}
+	case 8: // fails, but hands a complete response over with the error
+		return outcome{kind: kErr, tag: fmt.Sprintf("r%d", i)}.with(true, map[string]interface{}{"a": fmt.Sprintf("x%d", i), fmt.Sprintf("p%d", i): i})
+	case 9:
+		return outcome{kind: kErr, tag: fmt.Sprintf("q%d", i)}.with(false, map[string]interface{}{"a": fmt.Sprintf("y%d", i)})
+	case 10: // the error is an empty collection of errors
+		return errMulti(0, fmt.Sprint(i))
+	case 11:
+		return errMulti(2, fmt.Sprint(i))
 	}
 	return outcome{kind: kCancel}
 }
@@ -852,7 +950,7 @@ func randData(r *rng.R, by int) map[string]interface{} {
 }
 
 func randOutcome(r *rng.R, i int, allowCancel bool) outcome {
-	x := r.Intn(20)
+	x := r.Intn(25)
 	switch {
 	case x < 8:
 		return outcome{kind: kPayload, complete: true, data: randData(r, i)}
@@ -864,11 +962,27 @@ func randOutcome(r *rng.R, i int, allowCancel bool) outcome {
 		return outcome{kind: kErr, tag: fmt.Sprintf("e%d", r.Intn(3))} // tags may repeat: multiset with duplicates
 	case x < 18:
 		return outcome{kind: kEmpty}
+	case x < 20:
+		if allowCancel {
+			return outcome{kind: kCancel}
+		}
+		return outcome{kind: kEmpty}
+	case x < 23: // an error whose value is a collection of 0..3 errors, or lura's own merge error
+		o := errMulti(r.Intn(4), fmt.Sprint(r.Intn(2)))
+		if r.Chance(1, 4) {
+			o = errLura()
+		}
+		if r.Chance(1, 3) {
+			o = o.with(r.Bool(), randData(r, i))
+		}
+		return o
 	}
-	if allowCancel {
-		return outcome{kind: kCancel}
+	// a plain error together with a response
+	o := outcome{kind: kErr, tag: fmt.Sprintf("e%d", r.Intn(3))}
+	if r.Chance(1, 5) {
+		return o.with(r.Bool(), nil)
 	}
-	return outcome{kind: kEmpty}
+	return o.with(r.Bool(), randData(r, i))
 }
 
 func identity(n int) []int {
@@ -924,7 +1038,7 @@ func (g *gen) accCase(total int, calls []call) {
 			case 1:
 				a.Merge(nil, nil)
 			default:
-				a.Merge(nil, tagErr{c.tag})
+				a.Merge(nil, c.resp.err())
 			}
 		}
 		r, e := a.Result()
@@ -991,6 +1105,7 @@ func (g *gen) combineCase(total int, parts []*outcome) {
 
 func main() {
 	cfg := out.ParseFlags("C01")
+	initLuraMergeErr() // before the dequeue hook is installed
 	if strings.HasPrefix(cfg.Extra, "conc-child:") {
 		var via, n, goroutines, calls int
 		fmt.Sscanf(cfg.Extra, "conc-child:%d:%d:%d:%d", &via, &n, &goroutines, &calls)
@@ -1046,6 +1161,21 @@ func main() {
 		{[]outcome{{kind: kCancel, deadline: true}, {kind: kCancel, deadline: true}, {kind: kEmpty}}, []int{0, 1, 2}},
 		// the same field holding two different objects: the value must be one of them, not a blend
 		{[]outcome{P(true, obj("o", map[string]interface{}{"x": 1})), P(true, obj("o", map[string]interface{}{"y": 2}))}, []int{0, 1}},
+		// a backend that fails but hands a response over with its error (the concurrent middleware,
+		// a nested merge): one failed backend, one entry, and every OTHER backend still counts
+		{[]outcome{E("boom").with(false, obj("partial", true)), P(true, obj("b", 1))}, []int{0, 1}},
+		{[]outcome{E("boom").with(false, obj("partial", true)), P(true, obj("b", 1))}, []int{1, 0}},
+		{[]outcome{E("boom").with(true, obj("partial", true)), P(true, obj("b", 1)), P(true, obj("c", 2))}, []int{0, 1, 2}},
+		{[]outcome{E("boom").with(true, obj("b", 0)), P(true, obj("b", 1)), P(true, obj("c", 2))}, []int{1, 0, 2}},
+		{[]outcome{errLura().with(false, obj("n", 1)), P(true, obj("b", 1))}, []int{0, 1}},
+		{[]outcome{E("boom").with(true, nil), {kind: kEmpty}}, []int{0, 1}},
+		// an error VALUE that is a collection of 0..3 errors is still one entry
+		{[]outcome{errMulti(0, "a"), P(true, obj("a", 1))}, []int{0, 1}},
+		{[]outcome{errMulti(0, "a"), P(true, obj("a", 1))}, []int{1, 0}},
+		{[]outcome{errMulti(2, "a"), P(true, obj("a", 1))}, []int{0, 1}},
+		{[]outcome{errMulti(3, "a"), errMulti(1, "b"), P(true, obj("a", 1))}, []int{0, 1, 2}},
+		{[]outcome{errLura(), errMulti(0, "z")}, []int{0, 1}},
+		{[]outcome{errLura(), P(true, obj("a", 1)), E("x")}, []int{1, 0, 2}},
 		// nested values and odd keys
 		{[]outcome{P(true, obj("", nil, "kéy", []interface{}{1, "x", map[string]interface{}{"z": true}})), P(true, obj("", map[string]interface{}{"n": 1.5}))}, []int{1, 0}},
 	}
@@ -1127,7 +1257,7 @@ func main() {
 		maxN = 4
 	}
 	for n := 2; n <= maxN; n++ {
-		kinds := smallKindsFor(n)
+		kinds := smallKindsFor(n, cfg.Thorough())
 		total := 1
 		for i := 0; i < n; i++ {
 			total *= len(kinds)
@@ -1196,7 +1326,16 @@ func main() {
 				}
 				calls[i] = call{kind: 0, resp: o}
 			default:
-				calls[i] = call{kind: 2, tag: fmt.Sprintf("e%d", r.Intn(3))}
+				o := outcome{kind: kErr, tag: fmt.Sprintf("e%d", r.Intn(3))}
+				switch r.Intn(4) {
+				case 0:
+					o = errMulti(r.Intn(4), fmt.Sprint(r.Intn(2)))
+				case 1:
+					if r.Bool() {
+						o = errLura()
+					}
+				}
+				calls[i] = call{kind: 2, tag: o.tag, resp: o}
 			}
 		}
 		g.accCase(n, calls)
@@ -1217,6 +1356,6 @@ func main() {
 	}
 
 	w.Meta["imposed_orders"] = "arrival order imposed through proxy.SetVerifOnDequeue (site merge) and per-backend gates; cancelled backends deliver when the harness cancels the parent context"
-	w.Close(fmt.Sprintf("corpus of order-sensitive scenarios (both constructions); instance reuse: one proxy serving sequences of 3-6 different scenarios (telling corpus + random) and 10 scenarios from 12 goroutines at once (each distinct (scenario, observation) pair once); every vector of %d outcome kinds (6 for 4 backends) x every arrival order for 2..%d backends (orders that collapse because cancelled backends deliver together are run once; n=2 also through DefaultFactory); %d random scenarios with 2..8 backends, overlapping fields, nested values; %d deadline scenarios; %d accumulator call sequences (2..12 calls, total = number of calls) and %d combineData(2, [a, b]) calls; nontrivial = some backend is not a complete non-null payload or two payloads share a field",
+	w.Close(fmt.Sprintf("corpus of order-sensitive scenarios (both constructions); instance reuse: one proxy serving sequences of 3-6 different scenarios (telling corpus + random) and 10 scenarios from 12 goroutines at once (each distinct (scenario, observation) pair once); every vector of %d outcome kinds (incl. error together with a response, errors implementing Errors() with 0/2 inner errors; 8 of them for 3 backends in quick, 6 for 4 backends) x every arrival order for 2..%d backends (orders that collapse because cancelled backends deliver together are run once; n=2 also through DefaultFactory); %d random scenarios with 2..8 backends, overlapping fields, nested values; %d deadline scenarios; %d accumulator call sequences (2..12 calls, total = number of calls) and %d combineData(2, [a, b]) calls; nontrivial = some backend is not a complete non-null payload or two payloads share a field",
 		smallKinds, maxN, nRandom, nDeadline, nAcc, nComb), true)
 }
